@@ -345,3 +345,8 @@ package ice
 //@ func canonicalAddr
 //@   props C12 C06
 //@   ensures an-ipv4-address-has-one-key-whichever-form-it-arrived-in: !addrIs4In6(result)
+//@   ghostvar linkLocal bool = false
+//@   site call isIPv6LinkLocal#1 assert asks-about-the-unmapped-address: arg0 == addrUnmap(addr0)
+//@   site call isIPv6LinkLocal#1 ghost linkLocal := result
+//@   ensures a-zone-is-kept-only-where-it-identifies-an-interface: !linkLocal ==> addrZoneEmpty(result)
+//@   ensures a-link-local-ipv6-address-keeps-its-zone: linkLocal ==> result == addrUnmap(addr0)
